@@ -165,8 +165,8 @@ class Diagram(tensor.Diagram):
                 swaps = Id(source)\
                     @ Diagram.swap(1, target - source)\
                     @ Id(len(scan) - target - 1)
-                scan = scan[:source] + scan[source + 1:target]\
-                    + [node] + scan[target:]
+                scan = scan[:source] + scan[source + 1:target + 1]\
+                    + [scan[source]] + scan[target + 1:]
             else:
                 swaps = Id(len(scan))
             return scan, swaps
